@@ -250,7 +250,7 @@ pub fn run_random(args: &Args, rep: &mut Report) {
     run_cases(args, "C07", n, rep, &mut |idx, rep| {
         let mut rng = Rng::derive(args.seed ^ 0xC07, args.shard, idx);
         // (a) a random long line
-        let maxl = if rng.chance(10) { 200 } else { 30 };
+        let maxl = if rng.chance(2) { 2000 } else if rng.chance(10) { 200 } else { 30 }; // 2 %: hundreds of tokens, offsets beyond 255 / 256
         let line = gen_string(&mut rng, maxl);
         check_line(&line, rep, args, idx, true);
         rep.count("c07.random.lines");
